@@ -26,13 +26,14 @@ type Val struct {
 	DrainErr bool `json:"drain_err"` // draining the read buffer into the tunnel failed
 	ReqClose bool `json:"req_close"` // request asks to close (HTTP/1.0 or Connection: close) or the response has Close set
 	After    int  `json:"after"`     // MITM after the 200: 0 go on (plain bytes), 1 go on (TLS), 2 peek failed, 3 handshake failed, 4 h2 session
+	ClosingW bool `json:"closing_w"` // a shutdown began before the response was written
 }
 
 // Coq renders the valuation as a Gallina record.
 func (v Val) Coq() string {
-	return fmt.Sprintf("(mkval %d %s %s %s %s %d %d %s %s %d %d %s %s %d)",
+	return fmt.Sprintf("(mkval %d %s %s %s %s %d %d %s %s %d %d %s %s %d %s)",
 		v.Rd, coqfmt.Bool(v.Closing), coqfmt.Bool(v.Connect), coqfmt.Bool(v.MreqErr), coqfmt.Bool(v.Mitm), v.Rt, v.St,
-		coqfmt.Bool(v.MresErr), coqfmt.Bool(v.Rwc), v.Cn, v.W, coqfmt.Bool(v.DrainErr), coqfmt.Bool(v.ReqClose), v.After)
+		coqfmt.Bool(v.MresErr), coqfmt.Bool(v.Rwc), v.Cn, v.W, coqfmt.Bool(v.DrainErr), coqfmt.Bool(v.ReqClose), v.After, coqfmt.Bool(v.ClosingW))
 }
 
 // Feat are the errors.As / errors.Is facts of an error as the classifier sees
